@@ -137,6 +137,15 @@ func c10Prop(st *CaseStats, fam int) func(t *rapid.T) {
 			case FamSparse:
 				p := GenSparse(t)
 				batches[i], bd = p.Batch(sc), p.String()
+			case FamManyFields:
+				batches[i] = GenBatchManyFields(t, sc)
+				bd = fmt.Sprintf("many-fields{%d fields in doc0, %d docs} %s", len(batches[i][0].Fields), len(batches[i]), batches[i][1:min(len(batches[i]), 7)].String())
+			case FamCounts:
+				p := GenCounts(t)
+				batches[i], bd = p.Batch(sc), p.String()
+			case FamDVGaps:
+				p := GenDVGaps(t)
+				batches[i], bd = p.Batch(sc), p.String()
 			case FamBig:
 				batches[i] = GenBatchBig(t, sc)
 				bd = fmt.Sprintf("big{%d docs}", len(batches[i]))
@@ -569,4 +578,22 @@ func TestC10Sparse(t *testing.T) {
 	st := NewStats("C10Sparse", c10Rule)
 	defer st.Flush()
 	rapid.Check(t, c10Prop(st, FamSparse))
+}
+
+func TestC10ManyFields(t *testing.T) {
+	st := NewStats("C10ManyFields", c10Rule)
+	defer st.Flush()
+	rapid.Check(t, c10Prop(st, FamManyFields))
+}
+
+func TestC10Counts(t *testing.T) {
+	st := NewStats("C10Counts", c10Rule)
+	defer st.Flush()
+	rapid.Check(t, c10Prop(st, FamCounts))
+}
+
+func TestC10Gaps(t *testing.T) {
+	st := NewStats("C10Gaps", c10Rule)
+	defer st.Flush()
+	rapid.Check(t, c10Prop(st, FamDVGaps))
 }
